@@ -185,7 +185,7 @@ def gen_random(rng):
             nrow=rng.choice([None, None, rng.randint(1, 50), rng.randint(2, 12)]),
             half_points=rng.random() < 0.35, group_by=rng.random() < 0.25,
             as_colheader_false=0.08, attrs_p=rng.choice([0.0, 0.15, 0.5]),
-            convert=rng.random() < 0.8)
+            convert=rng.random() < 0.8, long_p=rng.choice([0, 0, 0.05, 0.2]))
         if spec["body"].get("group_by") and rng.random() < 0.3:
             scramble_group_by(rng, spec)
         if rng.random() < 0.12:
